@@ -7,3 +7,5 @@ Import ListNotations.
 Open Scope N_scope.
 
 Definition td_steps : list N := [1; 2; 3; 4; 5; 6; 7].
+(* the after_DESTROY hooks of a weight are appended to the DESTROY hooks of that weight (true) or replace them (false) *)
+Definition td_after_extends : bool := true.
